@@ -19,11 +19,11 @@ type histCfg struct {
 	Probes    []Op // get/group templates (Scope filled in per target)
 	MaxScopes int
 	Depth     int
-	CtxKinds  []string // context kinds offered to CreateScope
-	NoProvOps bool     // do not resolve directly on the provider
-	Final     []Op     // appended to every history (not counted in depth)
+	CtxKinds  []string          // context kinds offered to CreateScope
+	NoProvOps bool              // do not resolve directly on the provider
+	Final     []Op              // appended to every history (not counted in depth)
 	AlphaFn   func(h []Op) []Op // custom alphabet (replaces the generic one)
-	AutoGet   *Op      // issued on every freshly created scope (not counted in depth)
+	AutoGet   *Op               // issued on every freshly created scope (not counted in depth)
 	Oracle    func(e *Env, s *vsched.Sched, h []Op) []Finding
 }
 
